@@ -726,8 +726,47 @@ fn whole(cfg: Cfg) -> RunSpec {
     }
 }
 
+/// `c04 debug <mpb> <thr> <rbs> <escaped stream> [cut,cut,…]` — print what the handler writes.
+fn debug_main(rest: &[String]) -> ! {
+    let num = |i: usize, d: u64| rest.get(i).and_then(|s| s.parse::<u64>().ok()).unwrap_or(d);
+    let cfg = Cfg {
+        min_pipeline_buffer: num(1, u64::MAX),
+        batch_threshold: num(2, 2) as u32,
+        read_buffer_size: num(3, 8192) as u32,
+    };
+    let esc = rest.get(4).cloned().unwrap_or_default();
+    let mut bytes = Vec::new();
+    let mut it = esc.bytes().peekable();
+    while let Some(c) = it.next() {
+        if c == b'\\' {
+            match it.next() {
+                Some(b'r') => bytes.push(b'\r'),
+                Some(b'n') => bytes.push(b'\n'),
+                Some(b'\\') => bytes.push(b'\\'),
+                Some(o) => bytes.push(o),
+                None => {}
+            }
+        } else {
+            bytes.push(c);
+        }
+    }
+    let cuts: Vec<usize> = rest
+        .get(5)
+        .map(|s| s.split(',').filter_map(|x| x.parse().ok()).collect())
+        .unwrap_or_default();
+    vcore::runner::install_quiet_panic_hook();
+    let r = run_handler(chunks_of(&bytes, &cuts), &cfg, 1, Io::default(), 100_000);
+    println!("input    {:?}", vcore::show(&bytes));
+    println!("output   {:?}", vcore::show(&r.out));
+    println!("finished={} eof_seen={} turns={} panic={:?} other_panic={:?}", r.finished, r.eof_seen, r.turns, r.panic, r.other_panic);
+    std::process::exit(0)
+}
+
 fn main() {
     let args = vcore::parse_args();
+    if args.rest.first().map(|s| s.as_str()) == Some("debug") {
+        debug_main(&args.rest);
+    }
     let s = Session::new(
         "C04",
         Level::Exploration,
